@@ -499,7 +499,7 @@ def check(ctx, rep):
              "protocol's error reply; status-line protocols: one status per path, no body after an error status", floor=5)
     rep.rule("R03b", "request-tainted partial operations (index, unpack, int(), next(), urlparse, match.group, e.args[k]) are guarded", floor=25)
     rep.rule("R03c", "handler lookup never falls through silently", floor=1)
-    rep.rule("R03d", "persistent writes on the request path are exactly the directory cache and the ZIP index cache", floor=2)
+    rep.rule("R03d", "history independence: persistent writes are exactly the two cache files; module-level state is only lazily initialised from configuration, never mutated per request", floor=2)
     rep.rule("R03e", "mailbox constructors (fail with mailbox.Error, not OSError) are guarded or converted", floor=2)
     rep.assume("served content (gophermaps, link files, mailboxes, archives) is well formed: partial operations on file content are not tracked")
 
@@ -602,6 +602,11 @@ def check(ctx, rep):
                     rep.add("R03d", f"{s.func.qualname}: {norm(s.call)[:60]}", ok, ctx.where(s.func, s.call),
                             "" if ok else f"{s.effect}: request handling leaves state behind that later responses may depend on",
                             key=f"R03d|{s.func.qualname}|{norm(s.call.func)}")
+    # in-process state: what one request leaves in module-level / shared objects is seen by the next
+    from .c14 import request_functions, shared_state_obligations
+
+    shared_state_obligations(ctx, rep, "R03d", eff, request_functions(ctx, eff), sequential=True)
+
     # ------------------------------------------------------------------ R03e
     for H in ctx.handler_classes():
         for m in H.methods.values():
